@@ -93,6 +93,19 @@ struct C25 : drv::Harness
 				if (!w.per->get((unsigned)m->num(34), got)) { r.fail("app_not_stored", fam, "no stored copy under MsgSeqNum " + std::to_string(m->num(34)) + " (" + m->get(11) + ")"); return; }
 				if (got != m->raw) { r.fail("stored_differs_from_wire", fam, "stored copy under MsgSeqNum " + std::to_string(m->num(34)) + " is '" + fx::hex(got, 80) + "' but '" + fx::hex(m->raw, 80) + "' was transmitted"); return; }
 			}
+		// the same through a second persister instance opened on the same files (what a restart would find)
+		if (auto dv = w.durable_view())
+		{
+			for (auto *m : news)
+			{
+				if (m->type() != "D") continue;
+				f8String got;
+				if (!dv->get((unsigned)m->num(34), got)) { r.fail("app_not_stored", fam + ":reopened", "a second persister instance opened on the same files has no copy under MsgSeqNum " + std::to_string(m->num(34)) + " (" + m->get(11) + ")"); return; }
+				if (got != m->raw) { r.fail("stored_differs_from_wire", fam + ":reopened", "a second persister instance opened on the same files returns '" + fx::hex(got, 80) + "' under MsgSeqNum " + std::to_string(m->num(34)) + " but '" + fx::hex(m->raw, 80) + "' was transmitted"); return; }
+			}
+			sim::count("probe_durable_view_checked");
+		}
+		else if (w.pers == 2) r.fail("store_unreadable", fam, "a second persister instance cannot open the session's store files");
 	}
 
 	Result run(const Plan& p, bool verbose) override
